@@ -221,6 +221,30 @@ func (ex *Exec) abstractFunc(st *PState, fn *ssa.Function, full string, args []V
 			return v, true
 		}
 	}
+	// package-level helpers of a field package acting on an abstracted (real) element
+	if fn.Signature.Recv() == nil && fn.Signature.Params().Len() >= 1 {
+		if pt, ok := fn.Signature.Params().At(0).Type().(*types.Pointer); ok {
+			if srt, isAbs := ex.abstractSort(pt.Elem()); isAbs && srt == SReal {
+				rc := func(n int64) *Term { return ts.Real(big.NewRat(n, 1)) }
+				switch fn.Name() {
+				case "MulBy3":
+					ex.store(st, args[0], ts.Mul(rc(3), ex.ldT(st, args[0])))
+					return nil, true
+				case "MulBy5":
+					ex.store(st, args[0], ts.Mul(rc(5), ex.ldT(st, args[0])))
+					return nil, true
+				case "MulBy13":
+					ex.store(st, args[0], ts.Mul(rc(13), ex.ldT(st, args[0])))
+					return nil, true
+				case "Butterfly":
+					a, b := ex.ldT(st, args[0]), ex.ldT(st, args[1])
+					ex.store(st, args[0], ts.Add(a, b))
+					ex.store(st, args[1], ts.Sub(a, b))
+					return nil, true
+				}
+			}
+		}
+	}
 	if full == "math/big.NewInt" {
 		if _, ok := ex.abstractSort(fn.Signature.Results().At(0).Type().(*types.Pointer).Elem()); ok {
 			o := ex.alloc(st, "big.NewInt", fn.Signature.Results().At(0).Type().(*types.Pointer).Elem(), args[0])
@@ -294,6 +318,16 @@ func (ex *Exec) realMethod(st *PState, fn *ssa.Function, args []Value) Value {
 	case "Select":
 		c := args[1].(*Term)
 		return set(ts.Ite(ts.Eq(c, ts.Int64(0)), L(2), L(3)))
+	case "SetString":
+		str := constString(args[1])
+		v, ok := new(big.Int).SetString(str, 0)
+		if !ok {
+			return &TupleV{V: []Value{&PtrV{}, ex.errorValue(st, "Element.SetString failed")}}
+		}
+		return &TupleV{V: []Value{set(ts.Real(new(big.Rat).SetInt(v))), &IfaceV{}}}
+	case "SetBigInt":
+		t := ex.ldT(st, args[1])
+		return set(ts.ToReal(t))
 	case "MulBy3":
 		return set(ts.Mul(rc(3), L(0)))
 	case "MulBy5":
